@@ -78,7 +78,7 @@ def run(payload):
                 # seen in the collection and vice versa); the sources are left alone
                 import copy as _copy, pickle as _pickle
                 makers = {"copy_fields=True": lambda: FieldCollection([s, v, t], copy_fields=True), "slice": lambda: fc[0:3], "copy()": lambda: fc.copy(),
-                          "append": lambda: fc[0:2].append(t.copy()), "duplicate_members": lambda: FieldCollection([s, v, t, s]),
+                          "append": lambda: fc[0:2].append(t.copy()), "append_collection": lambda: fc[0:2].append(fc), "duplicate_members": lambda: FieldCollection([s, v, t, s]),
                           "deepcopy": lambda: _copy.deepcopy(fc), "pickle": lambda: _pickle.loads(_pickle.dumps(fc))}
                 for how, make in makers.items():
                     src_before = fc.data.copy()
@@ -96,8 +96,20 @@ def run(payload):
                     c.data[1] = 23.0
                     if not np.all(c[1].data[0] == 23.0):
                         fail("write_to_collection_not_seen_in_member", how=how, **tag)
-                    if sm(c.data, fc.data) or not np.array_equal(fc.data, src_before):
+                    if sm(c.data, fc.data) or not np.array_equal(fc.data, src_before) or any(sm(m.data, c.data) for m in fc):
                         fail("result_aliases_source", op=f"collection via {how}", cls="FieldCollection", **tag)
+                    if not all(sm(m.data, fc.data) for m in fc):
+                        fail("source_collection_lost_its_members", how=how, **tag)
+                # assigning a field to a component changes the valid cells of that component only, never ghost cells
+                vv = VectorField(grid, rng.uniform(-1, 1, (grid.dim,) + grid.shape), dtype=dtype)
+                vv._data_full[...] = rng.uniform(-1, 1, vv._data_full.shape)
+                src = ScalarField(grid, rng.uniform(-1, 1, grid.shape), dtype=dtype)
+                src._data_full[...] = rng.uniform(2, 3, src._data_full.shape)
+                before = vv._data_full.copy()
+                vv[0] = src
+                gm = np.ones(vv._data_full.shape, bool); gm[(...,) + tuple(slice(1, -1) for _ in range(grid.num_axes))] = False
+                if not np.array_equal(vv._data_full[gm], before[gm]) or not np.array_equal(vv.data[0], src.data) or not np.array_equal(vv.data[1:], before[(slice(1, None),) + tuple(slice(1, -1) for _ in range(grid.num_axes))]):
+                    fail("component_assignment_touches_ghost_cells_or_other_components", **tag)
                 # pickled / deep-copied fields: data stays a live view of the padded array; no aliasing with the source
                 for f in (s, v, t):
                     for how, make in (("deepcopy", _copy.deepcopy), ("pickle", lambda x: _pickle.loads(_pickle.dumps(x)))):
